@@ -14,3 +14,5 @@ import Stackage.Spec.OptLink
 import Stackage.Model.Defrag
 import Stackage.Spec.DefragSpec
 import Stackage.Props.C20
+import Stackage.Model.EV
+import Stackage.Model.Equal
